@@ -190,6 +190,7 @@ Proof.
   unfold build. destruct (existsb (fun P => has_dup (p_procs P)) (pipes c)) eqn:E1; [discriminate|].
   destruct (is_nil (possible_errors c)) eqn:E2; simpl; [|discriminate].
   destruct (cyclic (nodes_of c) (edges_of c)) eqn:E3; [discriminate|].
+  destruct (existsb (cannot_create c) (filter is_component (nodes_of c))) eqn:E4; [discriminate|].
   intros H. inversion H. split; [reflexivity|]. split; [apply no_dup_procs_iff; exact E1|].
   split; [apply is_nil_iff; exact E2|]. apply (cyclic_false_iff _ _ (edges_closed_of c)). exact E3.
 Qed.
